@@ -44,6 +44,11 @@ TABLE = {
         (1, "configured base, as for TurtleParser"),
 }
 TABLE.update({
+    "<loader::closure_loader::ClosureLoader<F> as json_ld::Loader<sophia_iri::Iri<std::sync::Arc<str>>, locspan::Location<sophia_iri::Iri<std::sync::Arc<str>>>>>::load_with::{closure#0}#unwrap:unwrap:call:rdf_types::IriVocabulary::iri":
+        (1, "the vocabulary re-resolves the very ArcIri the json-ld processor handed to the loader (ArcVoc::iri re-parses with iref a string that "
+            "came from iref)"),
+    "<loader::closure_loader::ClosureLoader<F> as json_ld::Loader<sophia_iri::Iri<std::sync::Arc<str>>, locspan::Location<sophia_iri::Iri<std::sync::Arc<str>>>>>::load_with::{closure#0}#unwrap:unwrap:call:core::str::<impl str>::parse":
+        (1, "parses the constant \"application/ld+json\""),
     "<vocabulary::ArcBnode as sophia_api::prelude::Term>::bnode_id#index:str:RangeFrom":
         (1, "`&self[2..]` strips the `_:` every rdf_types::BlankId starts with (ArcBnode is only built from one, R8.6)"),
     "<vocabulary::ArcBnode as sophia_api::prelude::Term>::borrow_term#index:str:RangeFrom":
@@ -74,6 +79,11 @@ VALIDATOR_CALLS = {
     "model::variable#validator-call:VarName:call:std::convert::Into::into": ("L8.1:varname", "rio variable name"),
     "model::language_tag#validator-call:LanguageTag:call:std::convert::Into::into": ("L8.1:langtag", "rio language tag (oxilangtag-validated)"),
     "<vocabulary::ArcVoc as rdf_types::IriVocabulary>::get#validator-call:Iri:call:std::convert::From::from": ("L8.1:iri-abs", "iref::Iri (absolute)"),
+    "parser::JsonLdParser::<LF>::parse_json::{closure#0}#validator-call:Iri:call:std::convert::From::from":
+        ("L8.1:const:x-bnode-gen://", "the constant location IRI of the blank node generator"),
+    "<loader::closure_loader::ClosureLoader<F> as json_ld::Loader<sophia_iri::Iri<std::sync::Arc<str>>, locspan::Location<sophia_iri::Iri<std::sync::Arc<str>>>>>::load_with::{closure#0}#validator-call:Iri:call:std::string::ToString::to_string":
+        ("L8.1:iri-abs", "the URL of a remote context, an ArcIri that ArcVoc::get wrapped earlier: same token class as (and downstream of) the known "
+                         "finding on ArcVoc::get"),
     "<vocabulary::ArcVoc as rdf_types::LanguageTagVocabulary>::get_language_tag#validator-call:LanguageTag:call:std::convert::From::from":
         ("L8.1:bcp47", "langtag::LanguageTag (any well-formed BCP47 tag)"),
     "<vocabulary::ArcBnode as sophia_api::prelude::Term>::bnode_id#validator-call:BnodeId:call:sophia_api::MownStr::<'a>::from_ref":
@@ -134,6 +144,9 @@ def language_obligations(ck, facts):
     rl.lang("RFC5646", G.anch(G.RFC5646))
     rl.lang("GENERATED_LABEL", "^[0-9]+$")
     if abs_e:
+        # constants wrapped with Iri::new_unchecked in the adapters must themselves be valid
+        rl.lang("CONST_BNODE_GEN", "^x-bnode-gen://$")
+        rl.empty("L8.1:const:x-bnode-gen://", "& CONST_BNODE_GEN ! %s" % abs_e)
         rl.empty("L8.1:iri-abs", "& RFC_IRI ! %s" % abs_e)
         rl.empty("L8.1:base-reparse(sophia<=RFC)", "& %s ! RFC_IRI" % abs_e)
     if ref_e:
